@@ -56,6 +56,10 @@ NEEDS = {
  'r3_C01_empty_proxy_slot_not_cleared': 'one deque holding an affinity proxy already emptied through the mailbox (owner`s isolation tag) below a task with a different isolation tag; owner scans under isolation, then allocates/spawns again',
  'r3_C08_notify_by_address_one_unfiltered': 'two tbb::mutex objects whose addresses hash to the same of the 2048 address-waiter monitors, a thread really asleep on each, the sleeper of the OTHER mutex older in the queue, no later unlock through that monitor',
  'r3_C08_notify_by_address_one_unfiltered__asC02': 'as r3_C08_notify_by_address_one_unfiltered (same patch run against the C02 check)',
+ 'r3_C05_blocked_range_split_signed_half': 'blocked_range<int> (signed Value) holding more elements than the signed type can count, e.g. (-1500000000, 1500000000)',
+ 'r3_C18_remap_revert_no_register': 'Linux, default pool, a large object alone in its region at the edge of the mapped address range; the kernel refuses exactly that mremap (RLIMIT_AS); then a pointer-validating entry point (safer_msize/free/realloc)',
+ 'r3_C03_start_for_node_before_child': 'a Range splitting/copy constructor or Body copy constructor that throws while parallel_for splits work',
+ 'r3_C12_skiplist_research_by_key': 'concurrent_multiset/multimap: >= 3 racing inserts of equivalent keys, two of height >= 2, the earlier node`s upper-level CAS failing while a later equivalent node completes; then count()/equal_range()',
  'r3_C06_scan_sum_slot_early': 'a parallel_scan body that enters the scheduler (nested parallelism / wait) so that the waiting thread runs its own not-yet-started right sibling',
  'r3_C07_serial_ooo_entry_skipped': 'a serial_out_of_order filter that is not the first filter, >= 2 threads and >= 2 live tokens',
  'r3_C09_try_pop_empty_eq': 'concurrent_bounded_queue with a blocked pop() (negative size) while another thread calls try_pop; with abort() an element is lost',
